@@ -29,13 +29,15 @@ var c16PRF = probe.Define("C16", "prf-prime", func(t *rapid.T) c16In {
 		return gen.Len(t, label, 0, 64, 0, 1, 15, 16, 17, 32, 63, 64)
 	}
 	in := c16In{IK: gen.Fill(t, "ik", keyLen("iklen")), CK: gen.Fill(t, "ck", keyLen("cklen"))}
-	switch gen.Pick(t, "idclass", 4, 3, 1, 1) {
+	switch gen.Pick(t, "idclass", 4, 3, 1, 1, 3) {
 	case 0:
 		in.Identity = rapid.SliceOfN(rapid.Byte(), 0, 40).Draw(t, "id")
 	case 1:
 		in.Identity = model.Bytes(rapid.StringMatching(`[0-9]{15}@nai\.5gc\.mnc[0-9]{3}\.mcc[0-9]{3}\.3gppnetwork\.org`).Draw(t, "nai"))
 	case 2:
 		in.Identity = append(model.Bytes("EAP-AKA'"), rapid.SliceOfN(rapid.Byte(), 0, 10).Draw(t, "id")...)
+	case 4:
+		in.Identity = model.Bytes(gen.Identity(t, "identity")) // SUPI / NAI / SUCI notations
 	default:
 		in.Identity = gen.Fill(t, "id", rapid.IntRange(0, 255).Draw(t, "idlen"))
 	}
